@@ -2,7 +2,10 @@ module gripverif
 
 go 1.18
 
-require github.com/bmeg/grip v0.0.0
+require (
+	github.com/bmeg/grip v0.0.0
+	google.golang.org/protobuf v1.28.2-0.20230222093303-bc1253ad3743
+)
 
 require (
 	github.com/DataDog/zstd v1.4.5 // indirect
@@ -76,7 +79,6 @@ require (
 	golang.org/x/text v0.7.0 // indirect
 	google.golang.org/genproto v0.0.0-20230303212802-e74f57abe488 // indirect
 	google.golang.org/grpc v1.53.0 // indirect
-	google.golang.org/protobuf v1.28.2-0.20230222093303-bc1253ad3743 // indirect
 	gopkg.in/ini.v1 v1.67.0 // indirect
 	gopkg.in/yaml.v2 v2.4.0 // indirect
 	sigs.k8s.io/yaml v1.3.0 // indirect
